@@ -399,6 +399,10 @@ fn check(property: &str, tier: &str, base_seed: u64, runs_override: Option<u64>)
                                         twin.env.insert("RUST_LOG".into(), "trace".into());
                                     }
                                     twin.absolute_input = !run.absolute_input;
+                                    // the directory the tool is started from carries formatter
+                                    // and toolchain configuration of some unrelated project
+                                    twin.cwd_files.insert("rustfmt.toml".into(), "hard_tabs = true\nmax_width = 60\nnewline_style = \"Windows\"\n".into());
+                                    twin.cwd_files.insert(".rustfmt.toml".into(), "tab_spaces = 2\n".into());
                                     // same content, other bytes: permuted object members, other white space
                                     let mut rr = verifsim::prng::Rng::new(seed ^ 0xD0C);
                                     if let Some(re) = reencode_json(&run.doc, &mut rr) {
@@ -472,7 +476,7 @@ fn check(property: &str, tier: &str, base_seed: u64, runs_override: Option<u64>)
                 let x = CliViolation {
                     oracle: "O5".into(),
                     key: key.clone(),
-                    observed: format!("same document and options; hash seed {} vs {}, env {:?} vs {:?}: exit code / stdout / target differ", run.hash_seed, twin.hash_seed, run.env, twin.env),
+                    observed: format!("same document and options; hash seed {} vs {}, env {:?} vs {:?}, files in the working directory {:?} vs {:?}: exit code / stdout / target differ", run.hash_seed, twin.hash_seed, run.env, twin.env, run.cwd_files.keys().collect::<Vec<_>>(), twin.cwd_files.keys().collect::<Vec<_>>()),
                     expected: "identical bytes in every process".into(),
                 };
                 match groups.get_mut(&key) {
